@@ -203,14 +203,15 @@ def histogram_keys(case, mr):
 
 CLAIM = {
     'text': 'Coq theorems (Properties_C07.v): split(join(map escape ws)) = ws for every list of non-empty words over '
-            'any characters (five-way automaton of splitString, induction); argument file lines, environment words and '
+            'any characters, and split(join ss) = ws for EVERY quoted rendering ss of the words (inductive quoting relation: '
+            'plain, backslash, single and double quoted segments; mutual induction over the five-way automaton of '
+            'splitString); argument file lines, environment words and '
             'argv that are legal spellings are evaluated as ONE sequence of uses in source order by the same step '
             'function, with cardinality counting off for the first two (override); the pinned file loop is proved to '
             'drop an unterminated last line and was repaired. Model tied by correspondence: exhaustive short strings '
             'for the splitter, generated source partitions with the whole-line values as oracle.',
-    'note': 'the general quoting relation (single / double quotes) is covered by the tie with an independent reference '
-            'splitter, the theorem is stated for backslash escaping; reading the file / environment (getline, getenv) '
-            'is library behaviour exercised by the harness only',
+    'note': 'words are joined by single blanks in the theorems (runs of blanks are covered by the exhaustive tie); '
+            'reading the file / environment (getline, getenv) is library behaviour exercised by the harness only',
     'technique': 'Coq proof (automaton round trip by induction; source composition as corollary of the C01 simulation '
                  'theorem) + model/implementation correspondence, exhaustive short strings',
     'design_ref': 'DESIGN.md section 5, C07',
